@@ -275,3 +275,33 @@ Proof.
   { destruct Hmode as [Hf|Hs]; [eapply repaired_credential_sound | eapply stub_credential_sound]; eassumption. }
   destruct Hw as (Hw1 & Hw2). repeat split; try assumption. symmetry. exact Hn.
 Qed.
+
+(* ---- house votes ------------------------------------------------------------------------------ *)
+(* a vote recorded in a chamber tally was delivered with a chamber stake look-up
+   (or is the voter's own chamber vote): a house member's vote is never in it *)
+Lemma counted_chamber_is_chamber E H r i t h a n :
+  Counted E H r i t Chamber h a n ->
+  (exists m thr, In (Msg m) H /\ m_sender m = a /\ m_round m = r /\ m_idx m = i /\ m_type m = t /\
+                 m_hash m = h /\ m_stake m = Some (thr, Chamber))
+  \/ (a = self E /\ exists n0 thr, own_view (own E) r i t = Some (n0, thr, Chamber)).
+Proof.
+  intros [(H1 & H2 & m & thr & HH & Hr & Hi & Ht & Hh & Ha & _ & _ & Hst & _)|(Ha & n0 & thr & Ho & _)].
+  - left. exists m, thr. split; [rewrite HH; apply in_or_app; right; left; reflexivity|]. tauto.
+  - right. split; [exact Ha|]. exists n0, thr. exact Ho.
+Qed.
+
+(* recording a house vote, or flagging a house double voter, leaves every chamber
+   tally as it is; a house quorum never sets a chamber latch *)
+Lemma house_vote_leaves_chamber w t a h n :
+  w_chamber (fst (fst (w_new_vote w t House a h n))) = w_chamber w
+  /\ w_chamber (fst (fst (w_addr_info w t House a h))) = w_chamber w.
+Proof.
+  unfold w_new_vote, w_addr_info. cbn [wsta].
+  destruct (sta_new_vote (mget (w_house w) t) a h n) as [[s1 b1] c1].
+  destruct (sta_addr_info (mget (w_house w) t) (vt_eqb t V.NextIndex) a h) as [[s2 r2] o2].
+  split; reflexivity.
+Qed.
+
+Lemma house_quorum_sets_no_chamber_latch s t t' :
+  vst_status (vst_update s t House) t' Chamber = vst_status s t' Chamber.
+Proof. reflexivity. Qed.
